@@ -134,7 +134,9 @@ def perform(op, ctx):
             kw["preferred_units"] = {s: getattr(pb.Unit, u) for s, u in sorted(op["units"].items())}
         if op.get("step") is not None:
             kw["max_calc_step_size"] = ctx.arg(op["step"])
-        return pb.basicConfig(**kw)
+        pb.basicConfig(**kw)
+        # with a step given, the resulting global step is the observable result (float-or-quantity parameter)
+        return pb.get_global_max_calc_step_size() if op.get("step") is not None else None
     if k == "set_debug":
         return pb.set_debug(bool(op["value"]))
     if k == "log_sink":
